@@ -115,6 +115,7 @@ class Tracker:
 
     fold_arith = False
     readers_relevant = True
+    export_events = frozenset()   # names of typestate entries that survive a return to the caller
     sentinels = frozenset()
 
     # reporting hooks
@@ -157,6 +158,7 @@ class Engine:
         self.provisional = {}
         self.dep_stack = []
         self._tests = {}
+        self._embedded = {}
         self._relevant = {}
         self.stats = {"functions": 0, "states": 0, "widened": 0, "summaries": 0}
 
@@ -170,7 +172,7 @@ class Engine:
         r = False
         for q in reach:
             fnobj = self.prog.functions.get(q)
-            if fnobj is not None and fnobj.name in tr.event_fns:
+            if fnobj is not None and tr.export_events and fnobj.name in tr.event_fns:
                 r = True
                 break
             w = self.cg.direct_writes.get(q, ())
@@ -190,6 +192,27 @@ class Engine:
             # calls through tracked slots inside?
             pass
         self._relevant[qname] = r
+        return r
+
+    def keys_under(self, rec):
+        """Tracked field keys that live in record `rec` or in a record embedded in it by value."""
+        r = self._embedded.get(rec)
+        if r is not None:
+            return r
+        recs = set()
+        st = [rec]
+        while st:
+            x = st.pop()
+            if x in recs:
+                continue
+            recs.add(x)
+            rd = self.prog.records.get(x)
+            if rd:
+                for f in rd["fields"]:
+                    if f.get("rec") and "*" not in f.get("t", ""):
+                        st.append(f["rec"])
+        r = frozenset(k for k in self.tr.keys if k[0] == "F" and k[1] in recs)
+        self._embedded[rec] = r
         return r
 
     def tests_tracked(self, fnobj):
@@ -860,6 +883,18 @@ class FunctionRun:
             return av.norm(("G", frozenset(sg)))
         if v[0] == "N":
             return TOP if bits < 32 else v
+        if v[0] == "R":
+            tlo = -(1 << (bits - 1)) if signed else 0
+            thi = (1 << (bits - 1)) - 1 if signed else (1 << bits) - 1
+            if v[1] is not None and v[2] is not None and v[1] >= tlo and v[2] <= thi:
+                return v
+            if not signed and (v[1] is None or v[1] < 0):
+                return TOP
+            lo = v[1] if (v[1] is not None and v[1] >= tlo) else None
+            hi = v[2] if (v[2] is not None and v[2] <= thi) else None
+            if (v[1] is not None and v[1] < tlo) or (v[2] is not None and v[2] > thi):
+                return TOP
+            return av.norm(("R", lo, hi))
         if v[0] == "B":
             if bits >= 32:
                 return v
@@ -1192,6 +1227,13 @@ class FunctionRun:
             ns = dict(s)
             key = None
             if root is not None:
+                if root[0] == "var" and l0 is root[2] and (l0.get("t") or "").endswith("*"):
+                    # the pointer now names another object: facts held about the fields reached
+                    # through it (field-based keys) no longer apply
+                    rec = type_record(l0.get("t"))
+                    if rec:
+                        for k in self.eng.keys_under(rec):
+                            ns.pop(k, None)
                 if root[0] in ("field", "var"):
                     direct = (l0 is root[2])
                     if direct:
@@ -1451,7 +1493,8 @@ class FunctionRun:
             d = dict(fs)
             rv = d.pop(RET, TOP)
             written = d.pop(WRITTEN, frozenset())
-            fvals = {k: v for k, v in d.items() if k[0] in ("F", "G", "E", "WB", "P")}
+            fvals = {k: v for k, v in d.items() if k[0] in ("F", "G", "WB", "P") or
+                     (k[0] == "E" and k[1] in self.tr.export_events)}
             exact[(rv, freeze(fvals), written)] = (rv, fvals, written)
         if len(exact) <= self.tr.max_exact_tuples:
             return list(exact.values())
@@ -1459,7 +1502,8 @@ class FunctionRun:
             d = dict(fs)
             rv = d.pop(RET, TOP)
             written = d.pop(WRITTEN, frozenset())
-            fvals = {k: v for k, v in d.items() if k[0] in ("F", "G", "E", "WB", "P")}
+            fvals = {k: v for k, v in d.items() if k[0] in ("F", "G", "WB", "P") or
+                     (k[0] == "E" and k[1] in self.tr.export_events)}
             ev = frozenset((k, v) for k, v in fvals.items() if k[0] == "E")
             gk = (rv, written, ev)
             g = groups.get(gk)
